@@ -14,7 +14,7 @@
    correspondence and the oracle, not proved here. *)
 From stdpp Require Import gmap list.
 From Coq Require Import NArith.
-From BS Require Import Abs.Parents Abs.ParentsProofs.
+From BS Require Import Abs.Parents Abs.ParentsProofs Abs.ParentsCausal.
 
 (* Operations by arbitrary peers to arbitrary parents; operations of one and the same peer may follow
    each other at any pace (A -> B -> A included); an operation by a DIFFERENT peer than the previous
@@ -80,6 +80,62 @@ Theorem C05_local_change_after_apply_announced :
     psent_by s1 (PAnnounce p) = if bool_decide (v = u) then 0 else length (pdsts s1 p).
 Proof. exact ParentsProofs.set_after_apply_announced. Qed.
 
+(* The same under a WEAKER, causal premise (Abs/ParentsCausal.v): the session need not be drained
+   between two writers. A peer other than the author of the previous operation re-parents as soon as
+   nothing of that author is in flight towards it (the author's tracking system has run, its link
+   to the host and the host's link to the peer are empty) -- which implies that the peer HAS the
+   previous operation's parent (C05_causal_premise_means_seen); operations of one peer at any pace;
+   joins at any moment, except that the host does not revert to the parent it holds a debounce
+   record for after a join inside that window (ruled out by frames: see C05_causal_naive_refuted
+   below). Every drain-separated history is causally ordered, strictly. *)
+Theorem C05_causal_converge :
+  forall n tr s',
+    prun (pinit n) tr = Some s' -> causally_ordered (pinit n) tr = true ->
+    pquiescent s' -> forall p, ppeers s' p -> ppar s' p = last_set tr.
+Proof. exact ParentsCausal.C05_causal_converge. Qed.
+
+Theorem C05_causal_every_quiescent_state :
+  forall n tr1 tr2 s1,
+    prun (pinit n) tr1 = Some s1 -> causally_ordered (pinit n) (tr1 ++ tr2) = true ->
+    pquiescent s1 -> forall p, ppeers s1 p -> ppar s1 p = last_set tr1.
+Proof. exact ParentsCausal.C05_causal_every_quiescent_state. Qed.
+
+(* after ANY causally ordered history, quiescent or not: every continuation by announce / deliver
+   events that reaches a quiescent state has the last parent everywhere, the continuations are
+   bounded in effective events and in messages, one of them reaches quiescence, none goes on for ever *)
+Theorem C05_causal_terminates :
+  forall n tr s',
+    prun (pinit n) tr = Some s' -> causally_ordered (pinit n) tr = true ->
+    (forall tr2 s'', Forall drain_event tr2 -> prun s' tr2 = Some s'' -> pquiescent s'' ->
+       forall p, ppeers s'' p -> ppar s'' p = last_set tr) /\
+    (forall tr2 s'', Forall drain_event tr2 -> prun s' tr2 = Some s'' ->
+       peffective_count s' tr2 <= pmeasure s' /\ ptotal_sent s' tr2 <= ppotential (length (pconn s')) s') /\
+    (exists tr2 s'', Forall drain_event tr2 /\ prun s' tr2 = Some s'' /\ pquiescent s'') /\
+    (forall (st : nat -> pstate) (ev : nat -> pevent), st 0 = s' ->
+       (forall i, drain_event (ev i) /\ effective (st i) (ev i) = true /\ pstep (st i) (ev i) = Some (st (S i))) -> False).
+Proof. exact ParentsCausal.C05_causal_terminates. Qed.
+
+Theorem C05_drain_separated_is_causal :
+  forall n tr, writers_drain_separated (pinit n) tr = true -> causally_ordered (pinit n) tr = true.
+Proof. exact ParentsCausal.drain_separated_is_causal. Qed.
+
+(* the value test of the premise is redundant: nothing in flight implies the peer has seen the parent *)
+Theorem C05_causal_premise_means_seen :
+  forall n tr, causally_ordered_flight (pinit n) tr = causally_ordered (pinit n) tr.
+Proof. exact ParentsCausal.causal_flight_has_seen. Qed.
+
+(* without the join side condition the statement is FALSE of the event-level model: the host applies 7
+   from client 1, its application sets 8, client 2 joins (snapshot: 8), the application sets 7 again,
+   all before the host's tracking system runs: it finds parent = record = 7 and stays silent; the
+   joiner keeps 8. No frame schedule produces this: the host's tracking system runs between any two
+   polls of the host, so the record never survives from an apply to a join that is handled in a later
+   poll, and a join handled in the same poll sees the applied parent (the frame-level correspondence
+   and the C05 oracle cover the real schedules). *)
+Theorem C05_causal_naive_refuted :
+  exists n tr s', prun (pinit n) tr = Some s' /\ causally_ordered_naive (pinit n) tr = true /\ pquiescent s' /\
+    exists p, ppeers s' p /\ ppar s' p <> last_set tr.
+Proof. exact ParentsCausal.C05_causal_naive_refuted. Qed.
+
 (* outside the property: two writers that are NOT separated by a drain may end quiescent and disagree *)
 Theorem C05_conflicting_writers_may_diverge :
   exists tr s, prun (pinit 1) tr = Some s /\ pquiescent s /\
@@ -97,3 +153,9 @@ Print Assumptions C05_messages_per_operation.
 Print Assumptions C05_applied_link_not_echoed.
 Print Assumptions C05_local_change_after_apply_announced.
 Print Assumptions C05_conflicting_writers_may_diverge.
+Print Assumptions C05_causal_converge.
+Print Assumptions C05_causal_every_quiescent_state.
+Print Assumptions C05_causal_terminates.
+Print Assumptions C05_drain_separated_is_causal.
+Print Assumptions C05_causal_premise_means_seen.
+Print Assumptions C05_causal_naive_refuted.
